@@ -53,18 +53,22 @@ def op_build(c):
     """full build of a component with the given ports; observable: error kind, or accessor name -> Sts/Mts"""
     ports = c['ports']  # [name, requires?, injected?]
     decls = [['ns', ['My'], [
-        ['itf', ['IApi'], [], [['Do', 'in', ['void'], []], ['Done', 'out', ['void'], []]]],
+        ['itf', ['IApi'], [['enum', ['Result'], ['NotOk', 'Ok']]],
+         [['Do', 'in', ['void'], []], ['Claim', 'in', ['Result'], []], ['Release', 'in', ['void'], []], ['Done', 'out', ['void'], []]]],
         ['itf', ['IHal'], [], [['Go', 'in', ['void'], []], ['Went', 'out', ['void'], []]]],
         ['comp', ['Comp'], [[p[0], ['IHal'] if p[1] else ['IApi'], 'requires' if p[1] else 'provides', bool(p[2])] for p in ports]]]]]
     fc = buildlib.parse_file(decls)
     try:
-        res = buildlib.build({'enc': ['My', 'Comp'], 'ports': {'p': c['p'], 'r': c['r']}, 'file': 'Comp.dzn'}, fc)
+        pc = {'p': c['p'], 'r': c['r']}
+        if c.get('mc'):      # the named provides port is a multi-client port
+            pc['mc'] = [c['mc'], 'Claim', ['Ok'], 'Release']
+        res = buildlib.build({'enc': ['My', 'Comp'], 'ports': pc, 'file': 'Comp.dzn'}, fc)
     except Exception as e:  # noqa
         return exc_kind(e)
     assert len(res.files) == 8
     hh = res.files[0].contents
     acc = {}
-    for m in re.finditer(r'^\s*::Dzn::(Sts|Mts)<[^>]*> (Provides|Requires)(\w+)\(\);', hh, re.M):
+    for m in re.finditer(r'^\s*::Dzn::(Sts|Mts)<[^>]*> (Provides|Requires)(?:MultiClient)?(\w+)\(', hh, re.M):
         acc[m.group(2)[0] + ':' + m.group(3)] = 0 if m.group(1) == 'Sts' else 1
     return [0, sorted([k, v] for k, v in acc.items())]
 
